@@ -443,6 +443,22 @@ pub fn c09_instances(_tier: Tier) -> Vec<Instance> {
                     }
                 }
             }
+            // nor on anything else this side has sent: one packet of every kind is written first
+            for k in &kinds {
+                let vals = baseline(k, 1);
+                let Some(f) = spec::ref_encode(k, &vals, c) else { continue };
+                let mut b = bytes::BytesMut::from(&f[..]);
+                let Ok(Some(p)) = Codec::new(mode_of(c)).decode(&mut b) else { continue };
+                if !matches!(crate::report::guard(|| Codec::new(mode_of(c)).encode(&p)), Ok(Ok(_))) { continue; }
+                for v in [9u8, 8] {
+                    let mut i = Instance::new(&format!("after-write#{cname}#{}-v{v}#{}", k.name, imp_name(imp)), imp, c, vec![f_ver(c, v), f_small(c)]);
+                    i.verify_version = true;
+                    i.preamble = vec![p.clone()];
+                    i.chunks = Chunks::WholeOrBytes;
+                    i.allow_eof = false;
+                    out.push(i);
+                }
+            }
             // 300 version packets on one connection, alternately acceptable and not
             for verify in [true, false] {
                 let mut frames = vec![];
@@ -566,7 +582,12 @@ fn drop_write_instances(c: bool, family: &str) -> Vec<Instance> {
     let mut out = vec![];
     let cname = if c { "compressed" } else { "uncompressed" };
     let alpha: Vec<(&str, Vec<u8>)> = vec![("ka", f_keepalive(c)), ("small", f_small(c))];
-    let user = Packet::Small(Small { reqi: RequestId(7), subt: SmallType::Vta(VtnAction::End) });
+    let users: Vec<(&str, Packet, bool)> = vec![
+        ("write", Packet::Small(Small { reqi: RequestId(7), subt: SmallType::Vta(VtnAction::End) }), false),
+        // the same through handshake(): the ISI is a packet like any other as far as the wire goes
+        ("handshake", Packet::Isi(insim::insim::Isi { reqi: RequestId(1), iname: "verif".into(), ..Default::default() }), true),
+    ];
+    for (uname, user, via_handshake) in &users {
     for seq in sequences(&alpha, 2) {
         if !seq.iter().any(|x| x.0 == "ka") { continue; }
         let label: Vec<&str> = seq.iter().map(|x| x.0).collect();
@@ -574,16 +595,18 @@ fn drop_write_instances(c: bool, family: &str) -> Vec<Instance> {
         for write_at in 1..=2usize {
             let mut ops: Vec<Option<Packet>> = vec![None; 5];
             ops.insert(write_at, Some(user.clone()));
-            let mut i = Instance::new(&format!("{family}#{cname}#{}-write@{write_at}#tokio", label.join("+")), Impl::Tokio, c, frames.clone());
+            let mut i = Instance::new(&format!("{family}#{cname}#{}-{uname}@{write_at}#tokio", label.join("+")), Impl::Tokio, c, frames.clone());
             i.program = Program::Ops(ops);
             i.chunks = Chunks::Boundary;
             i.script_writes = true;
             i.allow_eof = true;
             i.cancel_budget = 2;
             i.cancel_writes = true;
+            i.isi_via_handshake = *via_handshake;
             i.pending_budget = 1;
             out.push(i);
         }
+    }
     }
     out
 }
